@@ -681,6 +681,39 @@ def rule_lk1(ctx, rels, scope=None):
                 continue
             bufs = {}
             likedefs = set()
+            # locals that are always inexact: outputs of LAPACK routines and
+            # of transcendental functions
+            inexact_locals = set()
+            for n in ast.walk(f.node):
+                if isinstance(n, ast.Assign) and isinstance(
+                        n.value, ast.Call) and dotted(n.value.func) in (
+                        "utils.eig", "np.linalg.eig", "np.linalg.eigh",
+                        "utils.eigh", "np.linalg.inv", "utils.invert",
+                        "np.linalg.svd", "np.linalg.qr", "np.sqrt",
+                        "np.cos", "np.sin", "np.exp", "np.arccosh",
+                        "np.linalg.solve"):
+                    for t in n.targets:
+                        for x in ast.walk(t):
+                            if isinstance(x, ast.Name) and x.id not in \
+                                    f.params:
+                                inexact_locals.add(x.id)
+            for n in ast.walk(f.node):
+                if isinstance(n, (ast.Assign, ast.AugAssign)):
+                    tg = n.targets if isinstance(n, ast.Assign) \
+                        else [n.target]
+                    good = isinstance(n, ast.Assign) and isinstance(
+                        n.value, ast.Call) and dotted(n.value.func) in (
+                        "utils.eig", "np.linalg.eig", "np.linalg.eigh",
+                        "utils.eigh", "np.linalg.inv", "utils.invert",
+                        "np.linalg.svd", "np.linalg.qr", "np.sqrt",
+                        "np.cos", "np.sin", "np.exp", "np.arccosh",
+                        "np.linalg.solve")
+                    if not good:
+                        for t in tg:
+                            for x in ast.walk(t):
+                                if isinstance(x, ast.Name) and isinstance(
+                                        x.ctx, ast.Store):
+                                    inexact_locals.discard(x.id)
             # dtypes obtained from check_type without integer_type=False
             loose_dtypes = set()
             for n in ast.walk(f.node):
@@ -726,6 +759,9 @@ def rule_lk1(ctx, rels, scope=None):
                         src = None
                         if "like" in kw:
                             src = dotted(kw["like"])
+                            if isinstance(kw["like"], ast.Name) and \
+                                    kw["like"].id in inexact_locals:
+                                src = None   # typed like an inexact result
                         elif dt is not None and dotted(dt) in loose_dtypes:
                             src = f"<{dotted(dt)} from check_type>"
                         if src is not None:
@@ -806,6 +842,12 @@ def rule_lk1(ctx, rels, scope=None):
                         isinstance(x, ast.BinOp)
                         and isinstance(x.op, (ast.Div, ast.Pow, ast.Mult)))
                         for x in ast.walk(v)) or isinstance(v, ast.Name)
+                    if isinstance(v, ast.Attribute) \
+                            and dotted(v).split(".")[0] != like.split(".")[0] \
+                            and not like.startswith("<"):
+                        # the data of another object: it has a dtype of
+                        # its own (float endpoints into an int-typed pair)
+                        computed = True
                     if safe or not computed:
                         continue
                     n_sites += 1
@@ -824,6 +866,88 @@ def rule_lk1(ctx, rels, scope=None):
                             "truncated silently (or the in-place update "
                             "raises UFuncTypeError)",
                             instance=inst)
+    return n_sites
+
+
+# ---------------------------------------------------------------------------
+# LK2: no value is cast to the dtype of a different array
+
+
+def rule_lk2(ctx, rels, scope=None):
+    r = ctx.r
+    r.rule("LK2", "a value is never cast to the dtype of a *different* "
+                  "array taken from the caller (`y.astype(x.dtype)`, "
+                  "`np.array(y, dtype=x.dtype)`, `getattr(x, 'dtype', ..)` "
+                  "handed to astype) unless x's dtype was tested for "
+                  "integer-ness: when the same numbers are given as "
+                  "integers, y's fractional values are truncated silently")
+    n_sites = 0
+    for rel in rels:
+        m = ctx.p.module_by_rel(rel)
+        for f in ctx.p.all_functions:
+            if f.module is not m:
+                continue
+            if scope is not None and f not in scope:
+                continue
+            defs = single_defs(f.node)
+
+            def dtype_source(e, depth=0):
+                """x for an expression that is x's dtype"""
+                if isinstance(e, ast.Name) and e.id in defs and depth < 3:
+                    return dtype_source(defs[e.id], depth + 1)
+                if isinstance(e, ast.Attribute) and e.attr == "dtype":
+                    return e.value
+                if isinstance(e, ast.Call) and dotted(e.func) == "getattr" \
+                        and len(e.args) >= 2 and isinstance(
+                            e.args[1], ast.Constant) \
+                        and e.args[1].value == "dtype":
+                    return e.args[0]
+                return None
+
+            for c in ast.walk(f.node):
+                if not isinstance(c, ast.Call):
+                    continue
+                y = dt = None
+                if isinstance(c.func, ast.Attribute) \
+                        and c.func.attr == "astype" and c.args:
+                    y, dt = c.func.value, c.args[0]
+                elif dotted(c.func) in ("np.array", "np.asarray",
+                                        "np.asanyarray") and c.args:
+                    y = c.args[0]
+                    dt = next((k.value for k in c.keywords
+                               if k.arg == "dtype"), None)
+                if dt is None:
+                    continue
+                x = dtype_source(dt)
+                if x is None:
+                    continue
+                root = dotted(x).split(".")[0]
+                caller_typed = (root in f.params and root != "self") or \
+                    dotted(x).startswith("self.") and dotted(x).endswith(
+                        "_data")
+                if not caller_typed:
+                    continue
+                ynames = {n.id for n in ast.walk(y) if isinstance(n, ast.Name)}
+                ytext = dotted(y)
+                if dotted(x) in ytext or (root != "self" and root in ynames):
+                    continue             # re-typing x itself / its own parts
+                n_sites += 1
+                r.analysed(f)
+                inst = f"{f.qualname}:cast-to-{dotted(x)}"
+                if _has_int_guard(f, dotted(x)) or _has_int_guard(f, root):
+                    r.ok("LK2", inst, loc(f, c), dotted(c)[:100],
+                         "integer dtypes are re-typed first")
+                    continue
+                r.violation(
+                    "LK2", f"{f.fq}|{dotted(c)[:70]}", loc(f, c),
+                    dotted(c)[:140],
+                    f"`{ytext[:40]}` is cast to the dtype of `{dotted(x)}`: "
+                    "when that is integer-typed (the same numbers written "
+                    "without a decimal point) the fractional values of "
+                    f"`{ytext[:40]}` -- cosines, square roots, quotients -- "
+                    "are truncated silently", instance=inst)
+    if n_sites == 0:
+        r.ok("LK2", "modules", ",".join(rels), "", "no cross-typing cast")
     return n_sites
 
 
@@ -880,4 +1004,110 @@ def rule_t4(ctx, rels):
                     instance=f"{f.qualname}:like")
     r.ok("T4", "like-sites", ",".join(rels), "",
          f"{n_sites} `like` sites examined") if n_sites else None
+    return n_sites
+
+
+# ---------------------------------------------------------------------------
+# CX1: eigen-decomposition output is never stored into a real buffer
+
+EIG_CALLS = ("utils.eig", "np.linalg.eig", "eig", "np.linalg.eigvals",
+             "scipy.linalg.eig")
+
+
+def rule_cx1(ctx, rels, scope=None):
+    r = ctx.r
+    r.rule("CX1", "eigenvalues / eigenvectors of a general matrix "
+                  "(np.linalg.eig, utils.eig) are complex whenever one "
+                  "eigenvalue is; they are never stored into a buffer "
+                  "created with the default (float64) dtype -- NumPy drops "
+                  "the imaginary parts with a ComplexWarning and the stored "
+                  "vector is no longer an eigenvector")
+    n_sites = 0
+    for rel in rels:
+        m = ctx.p.module_by_rel(rel)
+        for f in ctx.p.all_functions:
+            if f.module is not m:
+                continue
+            if scope is not None and f not in scope:
+                continue
+            eig_names = set()
+            for n in ast.walk(f.node):
+                if isinstance(n, ast.Assign) and isinstance(
+                        n.value, ast.Call) and dotted(n.value.func) in \
+                        EIG_CALLS:
+                    for t in n.targets:
+                        for x in ast.walk(t):
+                            if isinstance(x, ast.Name):
+                                eig_names.add(x.id)
+            if not eig_names:
+                continue
+            # values derived from them by plain assignment
+            changed = True
+            while changed:
+                changed = False
+                for n in ast.walk(f.node):
+                    if isinstance(n, ast.Assign) and len(n.targets) == 1 \
+                            and isinstance(n.targets[0], ast.Name) \
+                            and n.targets[0].id not in eig_names \
+                            and any(isinstance(x, ast.Name)
+                                    and x.id in eig_names
+                                    for x in ast.walk(n.value)) \
+                            and not any(
+                                isinstance(c, ast.Call) and dotted(c.func) in (
+                                    "np.real", "np.abs", "np.isclose",
+                                    "np.imag", "np.argsort", "np.lexsort",
+                                    "np.nonzero", "np.unique", "np.where",
+                                    "np.ones_like", "np.zeros_like")
+                                for c in ast.walk(n.value)) \
+                            and not any(isinstance(c, ast.Attribute)
+                                        and c.attr in ("real", "imag",
+                                                       "shape", "nonzero")
+                                        for c in ast.walk(n.value)):
+                        eig_names.add(n.targets[0].id)
+                        changed = True
+            bufs = {}
+            for n in ast.walk(f.node):
+                if isinstance(n, ast.Assign) and len(n.targets) == 1 \
+                        and isinstance(n.targets[0], ast.Name) \
+                        and isinstance(n.value, ast.Call) \
+                        and dotted(n.value.func) in (
+                            "utils.zeros", "utils.ones", "np.zeros",
+                            "np.ones", "np.empty", "np.full"):
+                    kws = {k.arg for k in n.value.keywords}
+                    if not (kws & {"dtype", "like", "base_ring"}) \
+                            and len(n.value.args) <= (
+                                2 if dotted(n.value.func) == "np.full"
+                                else 1):
+                        bufs[n.targets[0].id] = n
+            for n in ast.walk(f.node):
+                if not (isinstance(n, ast.Assign) and isinstance(
+                        n.targets[0], ast.Subscript) and isinstance(
+                            n.targets[0].value, ast.Name)
+                        and n.targets[0].value.id in bufs):
+                    continue
+                # only the stored *values* count, not index expressions
+                val = n.value
+                if isinstance(val, ast.Subscript):
+                    val = val.value
+                used = {x.id for x in ast.walk(val)
+                        if isinstance(x, ast.Name)} & eig_names
+                if not used:
+                    continue
+                n_sites += 1
+                r.analysed(f)
+                b = n.targets[0].value.id
+                r.violation(
+                    "CX1", f"{f.fq}|{b}", loc(f, bufs[b]),
+                    norm_stmt(bufs[b])[:120],
+                    f"`{b}` is a float64 buffer and receives "
+                    f"`{sorted(used)[0]}`, the output of a general "
+                    "eigensolver: for an array of real transformations one "
+                    "of which has a complex-conjugate eigenvalue pair the "
+                    "imaginary parts are discarded, and the reported "
+                    "eigenvector is not mapped to a multiple of itself -- "
+                    "while the same matrix on its own gives the complex "
+                    "eigenvector", instance=f"{f.qualname}:{b}")
+    if n_sites == 0:
+        r.ok("CX1", "modules", ",".join(rels), "",
+             "no eigensolver output is stored into a default-typed buffer")
     return n_sites
